@@ -110,10 +110,16 @@ func pollV0(tol int64, k0 uint32, n int, ts []int64) (o obs, starts []uint32, pr
 	p, v := lib.Recover(func() {
 		w := manager.NewViewVerif(m.CurrentArbitrators[0].GetNodePublicKey(), time.Duration(tol), base, k0, m, l)
 		now := base
-		for _, t := range ts {
+		kRef, rRef, prev := k0, int64(0), int64(0) // the state obtained by carrying calculateOffsetTimeV0's own results
+		for i, t := range ts {
 			starts = append(starts, w.Offset)
 			now = base.Add(time.Duration(t))
 			w.ChangeView(now)
+			ref := calcV0(tol, rRef+t-prev)
+			kRef, rRef, prev = kRef+ref.k, ref.r, t
+			if problem == "" && !ref.panicked && (w.Offset != kRef || int64(now.Sub(w.ViewStartTime())) != rRef) {
+				problem = fmt.Sprintf("carry: after evaluation %d (t=%dns) ChangeView holds offset %d / %dns since view start, calculateOffsetTimeV0 returned %d / %dns", i+1, t, w.Offset, int64(now.Sub(w.ViewStartTime())), kRef, rRef)
+			}
 		}
 		o = obs{false, w.Offset, int64(now.Sub(w.ViewStartTime()))}
 	})
@@ -123,16 +129,22 @@ func pollV0(tol int64, k0 uint32, n int, ts []int64) (o obs, starts []uint32, pr
 	return
 }
 
-func pollV1(k0 uint32, n int, ts []int64) (o obs, starts []uint32, problem string) {
+func pollV1(tol int64, k0 uint32, n int, ts []int64) (o obs, starts []uint32, problem string) {
 	l := &listener{}
 	m := mock(n)
 	p, v := lib.Recover(func() {
-		w := manager.NewViewVerif(m.CurrentArbitrators[0].GetNodePublicKey(), 5*time.Second, base, k0, m, l)
+		w := manager.NewViewVerif(m.CurrentArbitrators[0].GetNodePublicKey(), time.Duration(tol), base, k0, m, l)
 		now := base
-		for _, t := range ts {
+		kRef, rRef, prev := k0, int64(0), int64(0) // the state obtained by carrying calculateOffsetTimeV1's own results
+		for i, t := range ts {
 			starts = append(starts, w.Offset)
 			now = base.Add(time.Duration(t))
 			changed := w.ChangeViewV1(now)
+			ref := calcV1(uint32(n), kRef, rRef+t-prev)
+			kRef, rRef, prev = ref.k, ref.r, t
+			if problem == "" && !ref.panicked && (w.Offset != kRef || int64(now.Sub(w.ViewStartTime())) != rRef) {
+				problem = fmt.Sprintf("carry: after evaluation %d (t=%dns) ChangeViewV1 holds offset %d / %dns since view start, calculateOffsetTimeV1 returned %d / %dns", i+1, t, w.Offset, int64(now.Sub(w.ViewStartTime())), kRef, rRef)
+			}
 			if changed != (w.Offset != starts[len(starts)-1]) {
 				problem = "ChangeViewV1 result does not say whether the offset changed"
 			}
@@ -203,7 +215,7 @@ func main() {
 	elaenv.InitLog(run.Out)
 	dlog.Init(run.Out, 255, 0, 0)
 	rng := lib.NewRng(run.Seed)
-	st := lib.NewStats("C26", "V0: tolerances 1ns..60s (and 0 -> panic), periodic polling at non-whole-second periods (5.9 s, 1.7 s, 0.999999999 s, tol+-1 ns ...) up to 250 points, 1 ns steps around view boundaries x durations at/around multiples, negative, random; V1: arbiter counts 0..36 (and 1 with offsets to 40 for every power of 20), offsets up to 3 rounds and at the uint32 wrap, durations aimed at slot boundaries +-1ns and random to several rounds; schedules: 1-6 polling points through the real ChangeView/ChangeViewV1, gaps small / slot-sized / large. nontrivial = at least one view change happened; distinct by (inputs, outputs)")
+	st := lib.NewStats("C26", "V0: tolerances 1ns..60s (and 0 -> panic), periodic polling at non-whole-second periods (5.9 s, 1.7 s, 0.999999999 s, tol+-1 ns ...) up to 250 points, 1 ns steps around view boundaries x durations at/around multiples, negative, random; V1: arbiter counts 0..36 (and 1 with offsets to 40 for every power of 20), offsets up to 3 rounds and at the uint32 wrap, durations aimed at slot boundaries +-1ns and random to several rounds; schedules: 1-6 polling points through the real ChangeView/ChangeViewV1 (V1 under sign tolerances 5 s / 1 s / 10 s / 7.3 s, single evaluations crossing the first full round), gaps small / slot-sized / large. nontrivial = at least one view change happened; distinct by (inputs, outputs)")
 	sh := &lib.Shards{Dir: run.Out, Imports: "From ELA Require Import model.C26_View corr.C26_corr.", CaseType: "C26_corr.case",
 		Mismatch: "C26_corr.mismatches", Scope: "Z", PerShard: 400}
 	id := 0
@@ -225,8 +237,10 @@ func main() {
 			return
 		}
 		prio := 2
-		if strings.Contains(sig, "compositional") {
+		if strings.Contains(sig, "compositional") && !strings.Contains(sig, "carry") {
 			prio = 0
+		} else if strings.Contains(sig, "carry") {
+			prio = 1
 		} else if strings.Contains(sig, "monotone") || sig == knownSig {
 			prio = 1
 		}
@@ -349,7 +363,13 @@ func main() {
 		}
 		st.LogCase(run.Out, i, map[string]interface{}{"op": "ChangeView schedule", "tol": tol, "k0": k0, "points": len(ts), "times_ns(first/last 6)": logTs, "incremental": inc.String(), "oneshot": one.String()})
 		st.Count(fmt.Sprintf("p0:%d:%d:%v:%s", tol, k0, ts, inc), inc.k != k0 && len(ts) > 1, kind)
-		if prob != "" || prob1 != "" {
+		for _, pr := range []string{prob, prob1} {
+			if strings.HasPrefix(pr, "carry") {
+				fail("ChangeView:carry-compositional", "V0: the state ChangeView keeps is not the (offset, remainder) calculateOffsetTimeV0 returned: "+pr, map[string]interface{}{"tol_ns": tol, "k0": k0, "times_ns": logTs})
+				break
+			}
+		}
+		if strings.HasPrefix(prob, "panic") || strings.HasPrefix(prob1, "panic") {
 			fail("ChangeView:panic", "V0: ChangeView panics: "+prob+prob1, map[string]interface{}{"tol_ns": tol, "k0": k0, "times_ns": logTs})
 		} else if inc != one {
 			// shortest prefix of the schedule on which polling and one evaluation already differ
@@ -420,13 +440,25 @@ func main() {
 
 	// ------------------------------------------------------------ V1 schedules
 	knownSeen := 0
+	v1Tols := []int64{5 * sec, sec, 10 * sec, 7300000000}
 	doPoll1 := func(n int, k0 uint32, ts []int64, kind string) {
-		inc, starts, prob := pollV1(k0, n, ts)
-		one, _, prob1 := pollV1(k0, n, ts[len(ts)-1:])
-		if prob != "" || prob1 != "" {
-			fail("ChangeViewV1:panic-or-inconsistent", "V1: "+prob+prob1, map[string]interface{}{"arbiters": n, "start_offset": k0, "points": len(ts)})
-		}
 		i := next()
+		tol := v1Tols[i%len(v1Tols)] // calculateOffsetTimeV1 never reads the sign tolerance: the schedule must not depend on it
+		inc, starts, prob := pollV1(tol, k0, n, ts)
+		one, _, prob1 := pollV1(tol, k0, n, ts[len(ts)-1:])
+		shortTs := ts
+		if len(shortTs) > 12 {
+			shortTs = append(append([]int64{}, ts[:6]...), ts[len(ts)-6:]...)
+		}
+		for _, pr := range []string{prob1, prob} {
+			if strings.HasPrefix(pr, "carry") {
+				fail("ChangeViewV1:carry-compositional", "V1: the state ChangeViewV1 keeps is not the (offset, remainder) calculateOffsetTimeV1 returned, so the next evaluation does not continue the schedule: "+pr, map[string]interface{}{"arbiters": n, "sign_tolerance_ns": tol, "start_offset": k0, "times_ns(first/last 6)": shortTs})
+				break
+			} else if pr != "" {
+				fail("ChangeViewV1:panic-or-inconsistent", "V1: "+pr, map[string]interface{}{"arbiters": n, "sign_tolerance_ns": tol, "start_offset": k0, "points": len(ts)})
+				break
+			}
+		}
 		fuel := inc.k - k0 + 2
 		sh.Add(fmt.Sprintf("CPoll1 %d %d %d %d %s %s", i, fuel, n, k0, lib.CoqList(gaps(ts)), inc.coq()))
 		logTs := ts
@@ -444,7 +476,7 @@ func main() {
 			}
 		}
 		if inc != one {
-			in := map[string]interface{}{"arbiters": n, "start_offset": k0, "times_ns": ts, "incremental(offset/remainder_ns)": inc.String(), "oneshot": one.String(), "evaluation_start_offsets": starts}
+			in := map[string]interface{}{"arbiters": n, "sign_tolerance_ns": tol, "start_offset": k0, "times_ns": ts, "incremental(offset/remainder_ns)": inc.String(), "oneshot": one.String(), "evaluation_start_offsets": starts}
 			if restartBeyondRound {
 				knownSeen++
 				if knownSeen <= 3 { // keep the (capped) failure list free for anything else
@@ -453,8 +485,8 @@ func main() {
 			} else {
 				// shortest prefix (outside the known class) on which the two already differ
 				for l := 2; l < len(ts); l++ {
-					a, sa, _ := pollV1(k0, n, ts[:l])
-					b, _, _ := pollV1(k0, n, ts[l-1:l])
+					a, sa, _ := pollV1(tol, k0, n, ts[:l])
+					b, _, _ := pollV1(tol, k0, n, ts[l-1:l])
 					beyond := false
 					for _, x := range sa {
 						if x >= uint32(n) && x != k0 {
@@ -462,7 +494,7 @@ func main() {
 						}
 					}
 					if a != b && !beyond {
-						in = map[string]interface{}{"arbiters": n, "start_offset": k0, "times_ns": ts[:l], "incremental(offset/remainder_ns)": a.String(), "oneshot": b.String(), "evaluation_start_offsets": sa}
+						in = map[string]interface{}{"arbiters": n, "sign_tolerance_ns": tol, "start_offset": k0, "times_ns": ts[:l], "incremental(offset/remainder_ns)": a.String(), "oneshot": b.String(), "evaluation_start_offsets": sa}
 						break
 					}
 				}
@@ -516,6 +548,16 @@ func main() {
 			inRound += int64(rng.Range(1, 200)) * sec
 		}
 		doPoll1(n, k0, periodic(p, inRound, 120), "pollV1-periodic")
+	}
+
+	// one evaluation that crosses the first full round of views (elapsed > 5 s * arbiters + 5 s), alone and
+	// followed by another poll shortly after
+	for i := 0; i < run.N(60, 3000); i++ {
+		n := rng.Range(1, 36)
+		k0 := uint32(rng.Intn(n))
+		t1 := (int64(n)-int64(k0))*5*sec + 5*sec + int64(rng.U64()%uint64(200*sec))
+		doPoll1(n, k0, []int64{t1}, "pollV1-cross-round")
+		doPoll1(n, k0, []int64{t1, t1 + int64(rng.U64()%uint64(90*sec))}, "pollV1-cross-round")
 	}
 
 	genSchedule := func(n int, k0 uint32, below bool) []int64 {
